@@ -145,7 +145,7 @@ def gen(tier, rng):
         for x in range(lo, hi + 1):
             for op in ("add_sat", "div_sat", "midpoint"):
                 out.append(f"row {lo} {hi} {op} {t} {x}")
-            out.append(f"row -3 12 ipow {t} {x}")
+            out.append(f"row {max(lo, -3)} 12 ipow {t} {x}")
             for e in (31, 64, 127, 255):
                 if e <= hi:
                     out.append(f"ipow {t} {x} {e}")
@@ -165,14 +165,18 @@ def gen(tier, rng):
     rows(out, 0, 65535, "bits u16")
     rows(out, 0, 65535, "bswap u16")
     rows(out, 0, 65535, "hton u16")
-    rows(out, -32768, 32767, "bswap i16")
+    rows(out, -32768, 32767, "bswap i16", sample=quick)
     rows(out, -32768, 32767, "abs i16")
-    rows(out, -32768, 32767, "ilog2 i16")
+    rows(out, -32768, 32767, "ilog2 i16", sample=quick)
     rows(out, 0, 65535, "ilog2 u16")
     for t in ("i16", "u16"):
         lo, hi = lim(t)
-        for to in (FIXED if not quick else ["i8" if lo < 0 else "u8", "u16" if lo < 0 else "i16"]):
-            rows(out, lo, hi, f"conv {to} {t}")
+        for to in FIXED:
+            # quick: every value for the narrowing conversion to the 8-bit type of the same signedness, a sample
+            # of the chunks for the 16-bit type of the other signedness
+            if quick and to not in ("i8" if lo < 0 else "u8", "u16" if lo < 0 else "i16"):
+                continue
+            rows(out, lo, hi, f"conv {to} {t}", sample=quick and to in ("i16", "u16"))
         out.append(f"row 0 31 ipow2 {t}")
         # binary: every value x boundary set, both argument orders (quick: two boundary values per order and a
         # sample of the chunks, see rows())
@@ -192,7 +196,7 @@ def gen(tier, rng):
                 rows(out, lo, hi, f"{op} {t} {bv}", head="rox", sample=quick)
             if bv != 0:
                 rows(out, lo, hi, f"idiv {t} {bv}", head="rox", sample=quick)
-        for bv in (full if not quick else [hi, lo, 27720 if lo < 0 else 30030]):
+        for bv in (full if not quick else [hi, 27720 if lo < 0 else 30030]):
             for op in ("gcd", "lcm"):
                 rows(out, lo, hi, f"{op} {t} {t} {bv}", sample=quick)
     if not quick:
@@ -217,7 +221,7 @@ def gen(tier, rng):
         if t == "u32":
             for x in vals:
                 out.append(f"hton {t} {x}")
-        for x in B[:: (8 if quick else 1)] + [rnd(rng, t) for _ in range(20 if quick else 3000)]:
+        for x in ([] if (quick and t == "ull") else B[:: (16 if quick else 1)] + [rnd(rng, t) for _ in range(8 if quick else 3000)]):
             out.append(f"row -130 130 rot {t} {x}")
             out.append(f"row 0 {w - 1} bit {t} {x}")
             for p in (w, w + 1, 255, 256, (1 << 31) - 1, 1 << 31, (1 << 31) + 3, hi, hi - 1, (1 << 32) % (hi + 1),
@@ -241,8 +245,11 @@ def gen(tier, rng):
         for e in range(0, w):
             out.append(f"ipow2 {t} {e}")
         SB = small_boundary(t)
+        if quick:
+            SB = clip(t, [lo, lo + 1, lo // 2, -256, -255, -2, -1, 0, 1, 2, 3, 255, 256, (1 << (w // 2)) - 1, 1 << (w // 2),
+                          (1 << (w // 2)) + 1, hi // 2, hi // 2 + 1, hi - 1, hi, -(1 << (w // 2)), 1 << (w - 2), -(1 << (w - 2))])
         pairs = [(x, y) for x in SB for y in SB]
-        pairs += [(rnd(rng, t), rnd(rng, t)) for _ in range(nrand * 3)]
+        pairs += [(rnd(rng, t), rnd(rng, t)) for _ in range(nrand * 2)]
         pairs += [(x, y) for x in B[::5] for y in (lo, lo + 1, hi, hi - 1, 0, 1, 2) + ((-1, -2) if lo < 0 else ())]
         pairs += [(y, x) for x in B[::5] for y in (lo, lo + 1, hi, hi - 1, 0, 1, 2) + ((-1, -2) if lo < 0 else ())]
         for (x, y) in pairs:
